@@ -90,6 +90,15 @@ pub fn check(case: &C01Case, st: &mut Stats) -> Verdict {
         st.sub(case.earlier.len() as u64);
     }
     let presentation = must_ok("create_presentation", sut::present_after(&sd_jwt, spec.fmt, &case.earlier, &case.selection, case.kb.as_ref()))?;
+    // … and the verifying side (same process, same thread) has seen those other presentations of the
+    // SAME credential before: whatever it remembers of them must not show in the checked result
+    for e in &case.earlier {
+        if let Out::Ok(p) = sut::present(&sd_jwt, spec.fmt, &e.selection, e.kb.as_ref()) {
+            st.label("verifier_saw_another_presentation_of_this_credential_before");
+            st.sub(1);
+            let _ = sut::verify(&p, spec.fmt, spec.alg, e.kb.as_ref().map(|k| (k.aud.as_str(), k.nonce.as_str())));
+        }
+    }
     let kb = case.kb.as_ref().map(|k| (k.aud.as_str(), k.nonce.as_str()));
     let got = must_ok("SDJWTVerifier::new", sut::verify(&presentation, spec.fmt, spec.alg, kb))?;
 
